@@ -218,10 +218,22 @@ def audit(ctx, prop_file):
                 blocks[-1] += "\n" + line
         if len(blocks) != len(printed):
             problems.append(f"{len(printed)} Print Assumptions but {len(blocks)} verdicts")
+        # Standard-library axioms a Properties file may rely on must be NAMED in it:  (* STDLIB-AXIOMS-ALLOWED: a.b.c d.e.f *)
+        # (the real-number axioms Flocq's semantics of IEEE 754 rests on). A theorem whose Print Assumptions lists only such
+        # names counts as discharged, and the names go into the evidence's trusted base; anything else is a problem.
+        allowed = set()
+        for mm in re.finditer(r"STDLIB-AXIOMS-ALLOWED:([^*]*)", open(path).read()):
+            allowed |= set(mm.group(1).split())
         for name, blk in zip(printed, blocks):
             closed = blk.startswith("Closed under")
-            verdicts.append({"theorem": name, "closed": closed, "assumptions": [] if closed else blk.split("\n")})
+            used = []
             if not closed:
+                # axiom lines look like `Module.name : type` (continuation lines of the type are indented)
+                used = [l.split(":")[0].strip() for l in blk.split("\n")[1:] if l and not l[0].isspace() and ":" in l]
+            ok = closed or (blk.startswith("Axioms:") and used and set(used) <= allowed)
+            verdicts.append({"theorem": name, "closed": ok, "assumptions": [] if closed else blk.split("\n"),
+                             "stdlib_axioms": sorted(set(used)) if (ok and not closed) else []})
+            if not ok:
                 problems.append(f"{name} depends on axioms: {blk[:300]}")
     ctx.proof = {
         "file": f"coq/Properties/{prop_file}",
@@ -382,7 +394,9 @@ def finish(ctx, level, technique_note, assumptions, trusted_base, rule, extra_co
         ]
         cov["proof_problems"] = ctx.proof["problems"]
     cov["checker_cmd"] = f"./setup.sh Properties/{ctx.pid}.vo && (cd coq && coqc -Q . BP Properties/{ctx.pid}.v)  # Coq 8.16.1 kernel, full .vo build"
-    cov["trusted_base"] = trusted_base
+    stdlib_ax = sorted({a for v in (ctx.proof or {}).get("verdicts", []) for a in v.get("stdlib_axioms", [])})
+    cov["trusted_base"] = list(trusted_base) + ([f"standard-library axioms named in Properties/{ctx.pid}.v and used by some theorems (Print Assumptions): "
+                                                 + ", ".join(stdlib_ax)] if stdlib_ax else [])
     cov["known_findings_reproduced"] = sorted(ctx.known_seen)
     cov["notes"] = ctx.notes
     cov["exhaustive"] = False
